@@ -122,6 +122,12 @@ struct Exporter {
 }
 
 fn start(allow: &[&str]) -> Result<Exporter, (String, String)> {
+    start_with(allow, &|_| {})
+}
+
+/// `pre` runs after the listener is bound (connections complete in the kernel backlog) and before the exporter starts
+/// accepting: a deterministic way to have a connection in a given state at the moment it is accepted
+fn start_with(allow: &[&str], pre: &dyn Fn(SocketAddr)) -> Result<Exporter, (String, String)> {
     let port = {
         let l = std::net::TcpListener::bind("127.0.0.1:0").unwrap();
         l.local_addr().unwrap().port()
@@ -136,6 +142,7 @@ fn start(allow: &[&str]) -> Result<Exporter, (String, String)> {
     }
     let rt = tokio::runtime::Builder::new_multi_thread().worker_threads(2).enable_all().build().unwrap();
     let (rec, fut) = rt.block_on(async { b.build() }).map_err(|e| ("exporter-failed-to-start".to_string(), e.to_string()))?;
+    pre(addr);
     rt.spawn(fut);
     rec.register_counter(&Key::from_parts("scrape_c", vec![Label::new("l", "v")]), &META).increment(5);
     rec.register_gauge(&Key::from_name("scrape_g"), &META).set(2.5);
@@ -336,6 +343,63 @@ fn disturbance_part(ctx: &Ctx, res: &mut PartResult) {
         }
         drop(held);
         drop(ex);
+    }
+    // connections that are already reset / garbage / half-open at the moment the exporter accepts them
+    for allow in [None, Some(vec!["127.0.0.0/30"]), Some(vec!["127.0.0.1", "10.0.0.0/8"])] {
+        for pre in 0..4usize {
+            res.executions += 1;
+            res.transitions += 1;
+            let held: std::sync::Mutex<Vec<TcpStream>> = std::sync::Mutex::new(Vec::new());
+            let ex = match start_with(allow.as_deref().unwrap_or(&[]), &|addr| match pre {
+                0 => {
+                    // completed handshake, then RST, before accept
+                    if let Ok(s) = connect_from(Ipv4Addr::new(127, 0, 0, 2), addr, true) {
+                        drop(s);
+                    }
+                    std::thread::sleep(Duration::from_millis(20));
+                }
+                1 => {
+                    if let Ok(mut s) = connect_from(Ipv4Addr::new(127, 0, 0, 1), addr, false) {
+                        let _ = s.write_all(b"\x16\x03\x01 not http");
+                        held.lock().unwrap().push(s);
+                    }
+                }
+                2 => {
+                    if let Ok(mut s) = connect_from(Ipv4Addr::new(127, 0, 0, 1), addr, false) {
+                        let _ = s.write_all(b"GET /metr");
+                        held.lock().unwrap().push(s);
+                    }
+                }
+                _ => {
+                    // several resets and a normal close queued up
+                    for i in 0..3 {
+                        if let Ok(s) = connect_from(Ipv4Addr::new(127, 0, 0, 1 + i), addr, i != 1) {
+                            drop(s);
+                        }
+                    }
+                    std::thread::sleep(Duration::from_millis(20));
+                }
+            }) {
+                Ok(e) => e,
+                Err((sig, msg)) => {
+                    res.violation(&sig, msg, json!({"pre": pre}));
+                    continue;
+                }
+            };
+            for (peer, path) in [([127, 0, 0, 1], "/metrics"), ([127, 0, 0, 1], "/health"), ([127, 0, 2, 0], "/metrics")] {
+                let r = get_patient(Ipv4Addr::from(peer), ex.addr, path);
+                match judge(allow.as_deref(), peer, path, &r) {
+                    Ok(o) => {
+                        states.add(&(format!("pre{}", pre), o));
+                    }
+                    Err((sig, msg)) => {
+                        let sig = if sig == "client-not-served" { "later-client-not-served-after-disturbance".to_string() } else { sig };
+                        res.violation(&sig, format!("a connection was {} before the exporter accepted it (allowlist {:?}); afterwards the probe from {:?} GET {}: {}", ["reset", "sending garbage", "half a request", "reset (several queued)"][pre], allow, Ipv4Addr::from(peer), path, msg), json!({"pre": pre}))
+                    }
+                }
+            }
+            drop(ex);
+        }
     }
     res.states = states.len();
     res.distinct_outcomes = states.len();
